@@ -67,6 +67,21 @@ Section Commits.
   Proof. exact (two_level_thm segs sorted w even_w same_len distinct). Qed.
 End Commits.
 
+(** Change ids: the same change id may sit in several segments (and on several commits).
+    The prefix of the shown length resolves to exactly that change, listing the positions of
+    all entries carrying it (newest segment first, descending inside a segment); every
+    shorter prefix is ambiguous. *)
+Theorem C20_change_resolves_back : forall (segs : list (@table (list nat))),
+  Forall sorted_tb segs -> forall w, Nat.even w = true ->
+  (forall x, In x (all_keys segs) -> length x = w) ->
+  forall k, In k (all_keys segs) ->
+  (let pfx := firstn (shortest_len k segs) k in
+   resolve_change pfx segs =
+     SingleMatch (k, flat_map (fun e => rev (snd e)) (matching_entries pfx segs)) /\
+   forall e, In e (matching_entries pfx segs) <-> (exists tb, In tb segs /\ In e tb) /\ fst e = k) /\
+  (forall l, l < shortest_len k segs -> resolve_change (firstn l k) segs = AmbiguousMatch).
+Proof. exact change_resolves_thm. Qed.
+
 (** The tables the model builds from a segment's entries are sorted, so the theorems apply to
     what the correspondence run evaluates. *)
 Theorem C20_tables_sorted : forall seg, sorted_tb (commit_table seg) /\ sorted_tb (change_table seg).
@@ -93,3 +108,4 @@ Print Assumptions C20_unique.
 Print Assumptions C20_minimal.
 Print Assumptions C20_resolves_back.
 Print Assumptions C20_two_level.
+Print Assumptions C20_change_resolves_back.
